@@ -58,20 +58,62 @@ func vdCentury(name string) int {
 	return 19 + rt.Pick(name, 2)
 }
 
+// vdEnable switches on the engine's exact folding of shifts/masks/division by constants
+// (engine/symgo/x_c33.go); natively a no-op.
+func vdEnable() {}
+
 // C33: NewDate accepts exactly the Gregorian dates of the range, builds the documented
 // bit-packed representation, and the accessors return the fields.
 //
 //symgo:harness prop=C33 tier=quick arith=int timeout=300 ttimeout=1500 qtimeout=20000 shards=2 tshards=8 bounds=probe
 func VerifC33New() {
-	c := vdCentury("century")
-	m := rt.Pick("month", 14) // 0 and 13 are invalid months
-	yy := rt.IntRange("yy", 0, 99)
-	y := c*100 + yy
-	d := rt.IntRange("day", -1, 33)
-	h := rt.IntRange("hour", -1, 25)
-	mi := rt.IntRange("minute", -1, 61)
-	s := rt.IntRange("second", -1, 61)
-	ms := rt.IntRange("ms", -1, 1001)
+	vdEnable()
+	var y, m, d, h, mi, s, ms int
+	switch kind := rt.Pick("kind", 3); kind {
+	case 0: // every field inside its own range: the day-of-month rule decides
+		y = vdCentury("century")*100 + rt.IntRange("yy", 0, 99)
+		m = rt.Pick("month", 12) + 1
+		d = rt.IntRange("day", 1, 31)
+		h, mi, s, ms = rt.IntRange("hour", 0, 23), rt.IntRange("minute", 0, 59), rt.IntRange("second", 0, 59), rt.IntRange("ms", 0, 999)
+	case 1: // one field just outside its range
+		y, m, d = 2024, 2, rt.IntRange("day", 1, 29)
+		h, mi, s, ms = rt.IntRange("hour", 0, 23), rt.IntRange("minute", 0, 59), rt.IntRange("second", 0, 59), rt.IntRange("ms", 0, 999)
+		switch rt.Pick("bad", 14) {
+		case 0:
+			y = -1
+		case 1:
+			y = 3001
+		case 2:
+			m = 0
+		case 3:
+			m = 13
+		case 4:
+			d = 0
+		case 5:
+			d = 32
+		case 6:
+			h = -1
+		case 7:
+			h = 24
+		case 8:
+			mi = -1
+		case 9:
+			mi = 60
+		case 10:
+			s = -1
+		case 11:
+			s = 60
+		case 12:
+			ms = -1
+		case 13:
+			ms = 1000
+		}
+	case 2: // the end of the range: only 3000-01-01 00:00:00.000 exists in year 3000
+		y = 3000
+		m = rt.Pick("month", 2) + 1
+		d = rt.IntRange("day", 1, 2)
+		h, mi, s, ms = rt.IntRange("hour", 0, 1), rt.IntRange("minute", 0, 1), rt.IntRange("second", 0, 1), rt.IntRange("ms", 0, 1)
+	}
 	x := NewDate(y, m, d, h, mi, s, ms)
 	rt.Reach("computed")
 	isNil := x == NilDate
@@ -86,4 +128,74 @@ func VerifC33New() {
 		rt.Observe("date", x.date)
 		rt.Observe("time", x.time)
 	}
+}
+
+// vdSource: a symbolic valid date with concrete century and month (the calendar conversion is
+// only decidable case by case); the year-in-century comes in three bands so that dates far from
+// a century boundary keep a constant century through small offsets.
+func vdSource() (y, m, d, h, mi, s, ms int) {
+	c := vdCentury("century")
+	m = rt.Pick("month", 12) + 1
+	var yy int
+	switch rt.Pick("band", 3) {
+	case 0:
+		yy = rt.IntRange("yy", 3, 96)
+	case 1:
+		yy = rt.IntRange("yy", 0, 2)
+	case 2:
+		yy = rt.IntRange("yy", 97, 99)
+	}
+	y = c*100 + yy
+	d = rt.IntRange("day", 1, 31)
+	h, mi, s, ms = rt.IntRange("hour", 0, 23), rt.IntRange("minute", 0, 59), rt.IntRange("second", 0, 59), rt.IntRange("ms", 0, 999)
+	rt.Assume(d <= vdMonthLen(y, m))
+	return
+}
+
+// vdWalk: the month reached by moving j whole months from (y, m) - m and j concrete - and the
+// number of days from the first of month m to the first of that month (negative backwards),
+// by walking the calendar one month at a time.
+func vdWalk(y, m, j int) (y2, m2, off int) {
+	y2, m2 = y, m
+	for ; j > 0; j-- {
+		off += vdMonthLen(y2, m2)
+		if m2++; m2 == 13 {
+			y2, m2 = y2+1, 1
+		}
+	}
+	for ; j < 0; j++ {
+		if m2--; m2 == 0 {
+			y2, m2 = y2-1, 12
+		}
+		off -= vdMonthLen(y2, m2)
+	}
+	return
+}
+
+// C33: adding days. The oracle walks the calendar month by month: if day+k, counted from the
+// first of the source month, falls into the month j months away, the result is that month's
+// day (day + k - days walked), same time of day. MinusDays inverts it.
+//
+//symgo:harness prop=C33 tier=quick arith=int timeout=300 ttimeout=1500 qtimeout=20000 shards=1 tshards=8 bounds=probe
+func VerifC33PlusDays() {
+	vdEnable()
+	y, m, d, h, mi, s, ms := vdSource()
+	src := vdPack(y, m, d, h, mi, s, ms)
+	var j int
+	if rt.Thorough() {
+		j = rt.Pick("months_away", 29) - 14
+	} else {
+		j = rt.Pick("months_away", 3) - 1
+	}
+	y2, m2, off := vdWalk(y, m, j)
+	d2 := rt.IntRange("day2", 1, 31) // the day of month reached: every k landing in that month
+	rt.Assume(d2 <= vdMonthLen(y2, m2))
+	k := d2 - d + off
+	r := src.Plus(0, 0, k, 0, 0, 0, 0)
+	rt.Reach("computed")
+	rt.Observe("date", r.date)
+	rt.Observe("time", r.time)
+	want := vdPack(y2, m2, d2, h, mi, s, ms)
+	rt.Assert("plusdays/gregorian", r == want)
+	rt.Assert("minusdays/inverse-of-plus", rt.And(want.MinusDays(src) == k, src.MinusDays(want) == -k))
 }
